@@ -21,6 +21,19 @@ C->S : seeded random values per (input, output) pair.  Every group of values
        Trace_ValueMap judges every element of the reference call against
        Convert (oracle:Nearest) and every call for oracle:Raised,
        oracle:InputModified, oracle:OutputType, oracle:ModeDependent.
+ENC  : the lossless chunk encoders' encode(chunk) (raw, compressed_segmentation)
+       called with a chunk of ANOTHER numeric type than the dataset's
+       data_type - the other place where the package may convert voxel types.
+       Interpretation (weaker reading): the encoders do not promise a
+       conversion, so a refusal (any exception, TypeError today) is accepted
+       and not judged; but IF encode returns, the values it stored are the
+       result of "converting voxel values from one numeric type to another"
+       and every one of them is judged by the same oracle:Nearest (Convert):
+       exact when representable, nearest / half-even / saturated otherwise,
+       never wrapped or truncated.  Anchor and random values per (input type,
+       dataset type, encoding); a stored element count different from the
+       chunk's is oracle:OutputType.  (A stored chunk that reads back with
+       other values is also a matter of C03's round trip.)
 """
 import json
 
@@ -30,7 +43,7 @@ from .. import valuemap_driver as vd
 LEVEL = "model_checking"
 RULE = ("value case = (input dtype, output dtype, exact input value); non-trivial when the dtypes differ "
         "and the value is not a small in-range integer (needs rounding, saturation, or exceeds 2^24); "
-        "distinct = distinct (in, out, value) triples.  Call case = (pair, mode, layout, values); "
+        "distinct = distinct (in, out, value) triples (transformer) and (encoding, in, out, value) (encoder entry points).  Call case = (pair, mode, layout, values); "
         "non-trivial when the mode is in-place, the layout is not contiguous or the byte order is not "
         "native; call cases are distinct per byte-order arrangement")
 
@@ -97,7 +110,40 @@ def build_groups(ctx):
                     groups.append(("anchor", vd.run_group(i, o, pts[k:k + per], order)))
                 for k in range(0, len(vals), per):
                     groups.append(("random", vd.run_group(i, o, vals[k:k + per], order)))
-    return groups
+    return groups, anchors
+
+
+def encoder_cases(ctx, anchors):
+    """ENC: value cases recorded from the encoders' encode()"""
+    cases = []
+    stats = {"calls": 0, "refused": {}, "returned": 0}
+    per = 64
+    for encoding, outs in vd.ENCODINGS.items():
+        for i in vd.IN_DTYPES:
+            pts = anchors[i][1]
+            for o in outs:
+                vals = pts + vd.random_values(ctx.rng, i, o, ctx.pick(32, 2000))
+                for k in range(0, len(vals), per):
+                    rec = vd.run_encoder_group(encoding, i, o, vals[k:k + per])
+                    stats["calls"] += 1
+                    if rec["exc"]:
+                        stats["refused"][rec["exc"]] = stats["refused"].get(rec["exc"], 0) + 1
+                        continue
+                    stats["returned"] += 1
+                    if rec["elems"] is None:
+                        cases.append({"k": "run", "in": i, "out": o, "order": "native", "mode": "preserve",
+                                      "layout": "encoder:" + encoding, "exc": "", "before": "", "after": "",
+                                      "res": "", "ref": "", "rdtype": o, "rshape": [rec["stored_count"]],
+                                      "shape": [len(rec["values"])],
+                                      "_group": {"values": rec["values"]}, "_run": rec})
+                        continue
+                    for fr, x in zip(rec["values"], rec["elems"]):
+                        rk, r = vd.enc_result(x)
+                        cases.append({"k": "v", "in": i, "out": o, "v": vd.enc_fraction(fr), "rk": rk, "r": r,
+                                      "_fr": fr, "_mode": "encode", "_layout": "encoder:" + encoding,
+                                      "_order": "native", "_obs": repr(x), "_origin": "encoder"})
+    ctx.notes["encoder_calls"] = stats
+    return cases
 
 
 def sig_value(c):
@@ -110,9 +156,17 @@ def sig_run(c):
             "byte_order": c["order"], "exc": c["exc"], "value_class": "array"}
 
 
-def judge_groups(ctx, groups):
+def judge_groups(ctx, groups, extra=()):
     vcases, rcases = [], []
     seen = set()
+    for c in extra:             # ENC cases (value cases, or a run case for a wrong element count)
+        if c["k"] == "run":
+            rcases.append(c)
+            continue
+        key = (c["_layout"], c["in"], c["out"], c["_fr"], c["rk"], json.dumps(c["r"]))
+        if key not in seen:
+            seen.add(key)
+            vcases.append(c)
     for origin, g in groups:
         ref = reference_run(g)
         rcases += run_cases_of(g, ref)
@@ -141,7 +195,8 @@ def report(ctx, cases, verdicts):
         if c["k"] == "v":
             cls = vd.value_class(c["_fr"], c["out"])
             if c["in"] != c["out"] and cls != "in_range/int/le2^24":
-                ctx.nontrivial(("v", c["in"], c["out"], str(c["_fr"])))
+                ctx.nontrivial(("v", c["in"], c["out"], str(c["_fr"])) if c["_origin"] != "encoder"
+                               else ("enc", c["_layout"], c["in"], c["out"], str(c["_fr"])))
             if st != "ok":
                 ctx.violation(clause, sig_value(c),
                               {"kind": "value", "in": c["in"], "out": c["out"],
@@ -179,6 +234,8 @@ def run(ctx):
         "float32 target: a value whose IEEE rounding exceeds the largest finite float32 may come out as "
         "that maximum or as infinity (both accepted); -0.0 = +0.0; NaN/inf inputs are outside the property",
         "in the in-place mode the caller's buffer may hold anything after the call",
+        "encoder entry points: a refusal (exception) of a chunk of another type is accepted; a returned "
+        "encode() is judged on the values it stored (oracle:Nearest)",
         "an input type in non-native byte order is the same input type (same values); the byte order of the "
         "RESULT's dtype is not constrained (dtype compared by name, content in native order)",
         "TLC 1.8 evaluates the oracle faithfully; harness/valuemap_driver.py only re-encodes numbers "
@@ -189,10 +246,12 @@ def run(ctx):
     if bad["ok"]:
         raise tlc.MachineryError("deviation switch CopyPolicy=copyFalse did not violate Works (vacuous model)")
     ctx.notes["switch_copyFalse_violates"] = bad["invariant_violated"]
-    groups = build_groups(ctx)
+    groups, anchors = build_groups(ctx)
     ctx.notes["groups"] = len(groups)
     ctx.notes["transformer_calls"] = sum(len(g["runs"]) for _, g in groups)
-    cases, verdicts = judge_groups(ctx, groups)
+    enc = encoder_cases(ctx, anchors)
+    ctx.notes["encoder_value_cases"] = sum(1 for c in enc if c["k"] == "v")
+    cases, verdicts = judge_groups(ctx, groups, enc)
     ctx.notes["value_cases"] = sum(1 for c in cases if c["k"] == "v")
     ctx.notes["call_cases"] = sum(1 for c in cases if c["k"] == "run")
     report(ctx, cases, verdicts)
@@ -207,6 +266,27 @@ def replay(ctx, path):
         values = [Fraction(d["value"])]
     else:
         values = [Fraction(v) for v in d["values"]]
+    if str(d.get("layout", "")).startswith("encoder:"):
+        rec = vd.run_encoder_group(d["layout"].split(":", 1)[1], d["in"], d["out"], values)
+        print("replay: encode", d["layout"], d["in"], "->", d["out"], rec["exc"] or "returned")
+        extra = []
+        if not rec["exc"] and rec["elems"] is not None:
+            for fr, x in zip(rec["values"], rec["elems"]):
+                rk, r = vd.enc_result(x)
+                extra.append({"k": "v", "in": d["in"], "out": d["out"], "v": vd.enc_fraction(fr), "rk": rk,
+                              "r": r, "_fr": fr, "_mode": "encode", "_layout": d["layout"],
+                              "_order": "native", "_obs": repr(x), "_origin": "encoder"})
+        cases, verdicts = judge_groups(ctx, [], extra) if extra else ([], {})
+        worst = "ok"
+        for c in cases:
+            st, clause, _ = verdicts[c["tid"]]
+            if c["_fr"] == values[0]:
+                print("replay: v", c["in"], c["out"], c["_obs"], "->", clause)
+                if st != "ok":
+                    worst = clause
+        print("replay verdict:", worst)
+        ctx.cleanup()
+        return 0 if worst == "ok" else 1
     g = vd.run_group(d["in"], d["out"], values, d.get("order", "native"))
     cases, verdicts = judge_groups(ctx, [("replay", g)])
     worst = "ok"
